@@ -2,7 +2,7 @@
     form of "acceptable" ([accb], sound for [aacc]), a concrete program without
     images (an extension, two point clouds, a free-standing blob, texts with
     XML-reserved characters) that satisfies every hypothesis of
-    [api_accepts] and [copy_idempotent_partial], and the conclusions checked once
+    [api_accepts] and [copy_idempotent], and the conclusions checked once
     more by evaluation: every call of the program and of its copy returns Ok,
     the copy's metadata equals the original's up to file offsets, and the calls
     issued from the copy are the calls of the copy. *)
@@ -29,6 +29,18 @@ Definition accb (a : astate) (c : wcall) : bool :=
   | PcFinalize =>
       match a_sub a with
       | APc p => negb (ap_fin p) && custom_limits_ok (ap_cil p) (ap_ccl p) (ap_desc p)
+      | _ => true
+      end
+  | ImAddVisualReference _ _ _ _ _ => match a_sub a with AIm im fin g => negb fin | _ => true end
+  | ImAddPinhole _ _ _ _ | ImAddSpherical _ _ _ _ | ImAddCylindrical _ _ _ _ =>
+      match a_sub a with
+      | AIm im fin g => negb fin && match im_projection im with None => true | Some _ => false end
+      | _ => true
+      end
+  | ImFinalize =>
+      match a_sub a with
+      | AIm im fin g => negb fin && (match im_visual_reference im with Some _ => true | None => false end ||
+                                     match im_projection im with Some _ => true | None => false end)
       | _ => true
       end
   | _ => true
@@ -72,6 +84,16 @@ Proof.
     split; [destruct (ap_fin p); [discriminate|reflexivity]|apply values_ok_representable; exact H2].
   - destruct (a_sub a) as [|p|]; try exact I. apply andb_prop in H as [H1 H2].
     split; [destruct (ap_fin p); [discriminate|reflexivity]|exact H2].
+  - destruct (a_sub a) as [| |im fin g]; try exact I. destruct fin; [discriminate|reflexivity].
+  - destruct (a_sub a) as [| |im fin g]; try exact I. apply andb_prop in H as [H1 H2].
+    split; [destruct fin; [discriminate|reflexivity]|destruct (im_projection im); [discriminate|reflexivity]].
+  - destruct (a_sub a) as [| |im fin g]; try exact I. apply andb_prop in H as [H1 H2].
+    split; [destruct fin; [discriminate|reflexivity]|destruct (im_projection im); [discriminate|reflexivity]].
+  - destruct (a_sub a) as [| |im fin g]; try exact I. apply andb_prop in H as [H1 H2].
+    split; [destruct fin; [discriminate|reflexivity]|destruct (im_projection im); [discriminate|reflexivity]].
+  - destruct (a_sub a) as [| |im fin g]; try exact I. apply andb_prop in H as [H1 H2].
+    split; [destruct fin; [discriminate|reflexivity]|].
+    destruct (im_visual_reference im); [left; discriminate|]. destruct (im_projection im); [right; discriminate|discriminate].
 Qed.
 
 Lemma accb_calls_sound lv : forall calls a, accb_calls lv a calls = true -> aacc_calls lv a calls.
@@ -92,6 +114,12 @@ Definition cx_tops : list wcall :=
    PcAddPoint [D bm3; D b1; D b2; VInteger 15];
    PcFinalize; PcDrop;
    AddBlob [7; 7; 7; 7; 7; 7; 7];
+   AddImage [105; 109];
+   ImAddVisualReference Png [1; 2; 3; 255; 0] 2 1 (Some [9; 9; 9]);
+   ImSet (IfDescription s_odd);
+   ImAddVisualReference Jpeg [4; 4] 1 1 None;
+   ImAddPinhole Png [5; 5; 5] (mkPhp 3 1 (mkF64 b1 []) (mkF64 bh []) (mkF64 bh []) (mkF64 b2 []) (mkF64 bm3 [])) (Some [8]);
+   ImFinalize; ImDrop;
    AddPointcloud [112; 50]
      [mkRecord SphericalRange (DDouble None None); mkRecord SphericalAzimuth (DDouble None None);
       mkRecord SphericalElevation (DDouble None None); mkRecord Intensity (DInteger 0 255)];
@@ -109,6 +137,7 @@ Proof.
   apply (un_pc _ _ [PcSet _; PcAddPoint _; PcAddPoint _]); [repeat constructor| |].
   { split; right; [reflexivity|]. intros l H. vm_compute in H. inversion H. }
   apply un_blob.
+  apply (un_im _ [ImAddVisualReference _ _ _ _ _; ImSet _; ImAddVisualReference _ _ _ _ _; ImAddPinhole _ _ _ _]); [repeat constructor|].
   apply (un_pc _ _ [PcAddPoint _]); [repeat constructor| |apply un_nil].
   split; right; [reflexivity|]. intros l H. vm_compute in H. inversion H.
 Qed.
@@ -120,10 +149,7 @@ Proof.
     try (repeat constructor; cbn [value_wf D]; unfold b1, b2, bh, bm3; lia).
 Qed.
 
-Lemma cx_not_im : Forall not_im cx_tops.
-Proof. unfold cx_tops. repeat constructor. Qed.
-
-Lemma cx_canonical : forall g proto, In (AddPointcloud g proto) cx_tops -> proto_canonical proto.
+Lemma cx_canonical : forall g proto, In (AddPointcloud g proto) cx_tops -> scaled_canonical proto.
 Proof.
   intros g proto H. unfold cx_tops in H. cbn [In] in H.
   repeat (destruct H as [H|H]; [try discriminate H; inversion H; subst; intros r Hr; cbn [In] in Hr;
@@ -137,7 +163,6 @@ Proof.
   - intros H; discriminate H.
   - constructor; [exact I|]. apply Forall_app. split; [exact cx_wf|constructor; [exact I|constructor]].
   - apply complete_borrow. exact cx_units.
-  - constructor; [exact I|]. apply Forall_app. split; [exact cx_not_im|constructor; [exact I|constructor]].
   - exact absr_init.
   - apply accb_calls_sound. vm_compute. reflexivity.
 Qed.
@@ -173,7 +198,8 @@ Proof. reflexivity. Qed.
 Definition cx_points : list (list (list rvalue)) :=
   [[[D b1; D b2; D bh; VInteger 7]; [D bm3; D b1; D b2; VInteger 15]]; [[D b2; D bh; D bm3; VInteger 200]]].
 Definition cx_view : file_meta := reader_view (fill_meta ex_fmt64 ex_fmt32 (ws_meta cx_state)).
-Definition cx_copy : list wcall := copy_calls cx_view cx_points.
+Definition cx_bytes : list im_ghost := program_image_bytes LX cx_calls.
+Definition cx_copy : list wcall := copy_calls cx_view cx_points cx_bytes.
 Definition cx_run2 := wrun (writer_run ex_fmt64 ex_fmt32 cx_version cx_copy) pw0.
 Definition cx_state2 : wstate := match snd cx_run2 with Ok (st, _) => st | _ => ws_init end.
 
@@ -188,15 +214,15 @@ Proof. vm_compute. reflexivity. Qed.
 Example cx_copy_offsets_differ : map pc_file_offset (ws_pcs cx_state2) <> map pc_file_offset (ws_pcs cx_state).
 Proof. vm_compute. discriminate. Qed.
 Example cx_copy_fixpoint :
-  copy_calls (reader_view (fill_meta ex_fmt64 ex_fmt32 (ws_meta cx_state2))) cx_points = cx_copy.
+  copy_calls (reader_view (fill_meta ex_fmt64 ex_fmt32 (ws_meta cx_state2))) cx_points (program_image_bytes LX cx_copy) = cx_copy.
 Proof. vm_compute. reflexivity. Qed.
 
-(** by the theorem: every hypothesis of [copy_idempotent_partial] holds of this program *)
+(** by the theorem: every hypothesis of [copy_idempotent] holds of this program *)
 Example cx_copy_theorem : exists s st rs is os bl,
   wrun (writer_run ex_fmt64 ex_fmt32 cx_version cx_calls) pw0 = (s, Ok (st, rs)) /\
   explains cx_tops is os (ws_pcs st) (ws_imgs st) bl /\
   let m' := reader_view (fill_meta ex_fmt64 ex_fmt32 (ws_meta st)) in
-  let P2 := copy_calls m' (item_points is) in
+  let P2 := copy_calls m' (item_points is) (program_image_bytes LX cx_calls) in
   acceptable_calls GX LX ws_init ls_init P2 /\
   exists s2 st2 rs2,
     wrun (writer_run ex_fmt64 ex_fmt32 cx_version P2) pw0 = (s2, Ok (st2, rs2)) /\ Forall res_ok rs2 /\
@@ -207,8 +233,8 @@ Proof.
   rewrite Hrun in Hres. cbn [snd] in Hres.
   destruct (wrun_spec (writer_run ex_fmt64 ex_fmt32 cx_version cx_calls) ls_init) as [l r] eqn:Espec. cbn [snd] in Hres. subst r.
   destruct (complete_prog GX LX cx_guid cx_tops l st rs cx_units cx_wf Espec Hok) as (is & os & xml & bl & st1 & Hex & _).
-  destruct (copy_idempotent_partial ex_fmt64 ex_fmt32 cx_version ex_nan_text64 ex_nan_text32 cx_guid cx_tops s st rs
-              cx_units cx_not_im cx_wf cx_canonical cx_acceptable Hrun is os bl Hex)
+  destruct (copy_idempotent ex_fmt64 ex_fmt32 cx_version ex_nan_text64 ex_nan_text32 cx_guid cx_tops s st rs
+              cx_units cx_wf cx_canonical cx_acceptable Hrun is os bl Hex)
     as (_ & _ & _ & _ & Hacc2 & s2 & st2 & rs2 & Hr2 & Hok2 & Hcv & _).
   exists s, st, rs, is, os, bl. split; [exact Hrun|]. split; [exact Hex|]. cbv zeta. split; [exact Hacc2|].
   exists s2, st2, rs2. auto.
